@@ -174,7 +174,7 @@ func (p *Pool) Start() {
 		p.N = 16
 	}
 	if p.Timeout == 0 {
-		p.Timeout = 120 * time.Second
+		p.Timeout = 300 * time.Second
 	}
 	p.reqs = make(chan poolItem, 4*p.N)
 	for i := 0; i < p.N; i++ {
